@@ -429,6 +429,14 @@ func runCase(t *testing.T, tc tcase, res *vio.Result) {
 			if c != nil {
 				_ = c.CloseWrite()
 			}
+		case "TargetAbort":
+			tmu.Lock()
+			c := tconn
+			tmu.Unlock()
+			if c != nil {
+				_ = c.SetLinger(0)
+				_ = c.Close()
+			}
 		case "CopyL2R", "CopyR2L", "L2REof", "R2LEof":
 			// relay steps: their effects are checked below against the model state after the step
 		case "Collect":
